@@ -611,6 +611,23 @@ func (x *Exec) checkInvariants(s *State, li *loopInfo, kind string) {
 	}
 	env := x.loopEnv(s, li)
 	for _, inv := range invs {
+		if inv.Kind == "complete" {
+			if kind == "inv-entry" {
+				ok := true
+				for _, b := range li.blocks {
+					if b == li.header {
+						continue
+					}
+					for _, succ := range b.Succs {
+						if !li.body[succ] {
+							ok = false
+						}
+					}
+				}
+				s.goal(fmt.Sprintf("%s#loop-complete:%s:%s", x.entryKey, strings.ReplaceAll(li.key, " ", "_"), inv.Name()), "assert", inv.Props(), boolLit(ok), inv.Where, inv.Src)
+			}
+			continue
+		}
 		t, err := env.evalBool(inv.Expr, inv.Src)
 		if err != nil {
 			x.unsup("%v (%s)", err, inv.Where)
@@ -715,6 +732,9 @@ func (x *Exec) loopEntry(s *State, li *loopInfo, from *ssa.BasicBlock) {
 	if len(invs) > 0 {
 		env := x.loopEnv(s, li)
 		for _, inv := range invs {
+			if inv.Kind == "complete" {
+				continue
+			}
 			t, err := env.evalBool(inv.Expr, inv.Src)
 			if err != nil {
 				x.unsup("%v (%s)", err, inv.Where)
